@@ -2,7 +2,8 @@
    Statements only; proofs live in proofs/RenderProofs.v.
    Vocabulary (spec/RenderSpec.v): cfg (window, layout, info style, header, --multi), view (query, result list,
    current line, scroll offset, selection), list_row c i = the window row the layout gives to list slot i,
-   list_slot_text c v i = pointer column, marker column, text of result number offset+i cut by `trunc`.
+   list_slot_text c v i = pointer column, marker column, text of result number offset+i as shown by `show`
+   (tabs expanded with a column that runs from the start of the text; cut with the ellipsis when too wide).
    Model (model/RenderModel.v): render c v = what printAll paints on an erased window, in window rows;
    run c t us = the incremental-redraw machine (prevLines) over a history of field updates + render requests. *)
 From Fzf Require Import Prelude RenderSpec RenderModel RenderProofs.
@@ -23,6 +24,16 @@ Theorem truncation_shape : forall maxw s,
   length (trunc maxw s) <= maxw.
 Proof. exact truncation_shape_proof. Qed.
 Print Assumptions truncation_shape.
+
+(* texts with tabs: a row shows the tab-expanded text (each TAB advances to the next multiple of --tabstop, counted
+   from the start of the text, independently of how the text is split into highlighted / coloured segments) when
+   that fits, never more than maxw columns, and exactly what `trunc` shows when the text has no tabs *)
+Theorem show_shape : forall ts maxw s,
+  length (show ts maxw s) <= maxw /\
+  (length (expand ts s) <= maxw -> show ts maxw s = expand ts s) /\
+  (Forall (fun x => x <> TAB) s -> show ts maxw s = trunc maxw s).
+Proof. exact show_shape_proof. Qed.
+Print Assumptions show_shape.
 
 (* ★ pointer_marker_exact: the pointer is on exactly the current line, the marker on exactly the selected items *)
 Theorem pointer_marker_exact : forall c v i m, cfg_ok c -> view_wf v -> i < max_items c ->
@@ -107,7 +118,7 @@ Print Assumptions incremental_eq_full_refuted.
 (* non-vacuity: a concrete configuration and state meet the hypotheses; the render shows pointer, marker,
    a truncated line and the layout's direction *)
 Example c15_nonvacuous :
-  let c := mkCfg 12 6 LDefault IDefault true [[72%Z]] [] MAX_MULTI in
+  let c := mkCfg 12 6 LDefault IDefault true [[72%Z]] [] MAX_MULTI 8 in
   let v := mkView [GT; SP] [] [(0, [97;98;99;100;101;102;103;104;105;106;107]%Z); (1, [120%Z])] 2 1 0 [0] in
   cfg_ok c /\ view_wf v /\ in_window 2 (max_items c) 1 0 /\
   render c v = [blank 12;
@@ -127,7 +138,7 @@ Qed.
    requested), then a cursor motion that repaints ONLY the prompt line: the hypotheses hold and the counter is
    still on the prompt row afterwards *)
 Example c15_incremental_nonvacuous :
-  let c := mkCfg 24 6 LDefault IInlineRight true [] [] MAX_MULTI in
+  let c := mkCfg 24 6 LDefault IInlineRight true [] [] MAX_MULTI 8 in
   let txt := fun i : nat => [49; 48 + Z.of_nat i]%Z in
   let v0 := mkView [GT; SP] [] [(1, txt 1); (2, txt 2); (3, txt 3)] 3 0 0 [] in
   let us := [mkUpd [GT; SP] [49; 50]%Z [(2, txt 2)] 3 0 [] (mkReqs true true false true false);
